@@ -172,6 +172,26 @@ def main(tier):
         for _ in range(rng.randint(1, 2)):
             seq.append(rng.choice(mon) if rng.random() < 0.6 else rng.choice(["2 ", "0 ", "1 ", "⟨1|2⟩"]) + rng.choice(dya))
         cs.append(("prog", vtext, plain, cop, seq))
+    # SYSTEMATIC tails: every monad, every dyad x literal second arguments, every triad x (index-like, value-like)
+    # argument pairs, each on an eager and on a lazy value behind a copy
+    tri = [k for k in keys if EL.elements[k][1] == 3]
+    # (an empty list nested in a literal would pick up the stack top: it is built with range-of-0 and pair instead)
+    dargs = ["0 ", "1 ", "2 ", "3 ", "9 ", "⟨1|2⟩", "⟨⟩", "0ʁ2\"", "⟨0|⟨1⟩⟩", "`a`", "λ›;"]
+    targs = [i + v for i in ["0 ", "1 ", "2 ", "¯1 ".replace("¯", "1N_"), "⟨0|1⟩", "0ʁ2\"", "⟨⟨0⟩|1⟩", "⟨⟩", "1 0ʁ\"", "λ›;"]
+             for v in ["9 ", "⟨7⟩", "`z`"]]
+    sysvals = [VALUES[0], VALUES[3], VALUES[8], ("⟨10|20|30|40⟩", [10, 20, 30, 40])]
+    for vi, (vtext, plain) in enumerate(sysvals if tier == "thorough" else sysvals[:2] + sysvals[3:]):
+        for cop in ([":", "var", "reg", "garr"] if tier == "thorough" else [":", "var"]):
+            if cop != ":" and vi > 1:
+                continue
+            for k in mon:
+                cs.append(("prog", vtext, plain, cop, [k]))
+            for k in dya:
+                for a in dargs:
+                    cs.append(("prog", vtext, plain, cop, [a + k]))
+            for k in tri:
+                for a in targs:
+                    cs.append(("prog", vtext, plain, cop, [a + k]))
     # variables: the variable is pushed twice in phase 1, so two references to the SAME object are retained
     for _ in range(nprog // 4):
         vtext, plain = rng.choice(VALUES)
